@@ -3,7 +3,7 @@ import struct
 
 ID = "C04"
 PROPS = "Props/C04.v"
-GEN = ["sm3iv"]
+GEN = ["sm3iv", "sm3consts"]
 LEGS = [
     {"driver": "c04", "runner": ("sm3", "Extract/ExtractSM3.v", "Sm3_model")},
     {"driver": "c04w", "runner": ("sm3", "Extract/ExtractSM3.v", "Sm3_model"), "tags": "verif"},
@@ -22,17 +22,19 @@ LEVEL_TEXT = ("Theorems in Coq (Props/C04.v), no length bound: the loop body of 
               "lengths 0..8192, partitions, streams, HMAC/PBKDF2 cases and white-box counter states as the real package.")
 LEVEL_NOTE = ("Trusted: Coq kernel, extraction (ExtrOcamlBasic only), the Go drivers, generator coverage, and that SM3Spec.v transcribes "
               "GM/T 0004 (validated by the standard's two examples inside Coq and against OpenSSL's SM3 and a second, independent Python "
-              "implementation on every run). Model and specification share the 32-bit word operations (N.lxor/land/lor/shift, + mod 2^32, "
-              "<<<): what is proved is the loop/array/padding/buffering structure, not bit-level identities. Go slices have value "
-              "semantics in the model: append into spare capacity inside pad/Write and Sum writing into the caller's spare capacity are "
-              "modelled-not-verified, exercised by repeated-Sum / spare-capacity / buffer-reuse histories. crypto/hmac and pbkdf2 are "
-              "models of the Go 1.23 / x/crypto sources (modelled, not verified), tied by the differential run through the real libraries.")
+              "implementation on every run). Go slices are modelled twice: by value (SM3Model.v, the extracted model) and with backing "
+              "arrays in a heap (SM3Heap.v: unhandleMsg, Write's p, Sum's in/result, pad's appends into spare capacity, any growth "
+              "policy); the heap model is proved to refine the value model for every history in which the caller stores into any array "
+              "but the object's own, Write is proved never to write or keep the caller's array, Sum to write only in[len:len+32] or a "
+              "fresh array. What stays trusted there is that SM3Heap.append / re-slicing describe Go's append and slice expressions; "
+              "exercised by buffer-reuse, scribble and overlap-flag histories (c04w A cases). crypto/hmac and pbkdf2 are models of the Go "
+              "1.23 / x/crypto sources (modelled, not verified), tied by the differential run through the real libraries.")
 TRUSTED_BASE = [
     "specification coq/SM3/SM3Spec.v (GM/T 0004-2012), coq/SM3/HMACSpec.v (RFC 2104, RFC 8018 5.2), coq/SM3/HashSpec.v (hash.Hash contract); "
     "the standard's examples A.1, A.2 are Examples by vm_compute",
     "model coq/SM3/SM3Model.v written by hand from sm3/sm3.go, Go 1.23 crypto/hmac/hmac.go and x/crypto/pbkdf2/pbkdf2.go; tied by the correspondence run of this check",
-    "model and specification share the word operations trunc32/add32/rotl32/not32 and N.lxor/N.land/N.lor/N.shiftl/N.shiftr",
-    "translator harness/cmd/gen target sm3iv (the eight IV words of Reset -> coq/Gen/SM3IV.v)",
+    "model and specification share the word operations trunc32/add32/rotl32/not32; these are proved equal to mod 2^32, + mod 2^32, 2^32-1-x, (x*2^k) mod 2^32 + x/2^(32-k) on words < 2^32, every intermediate value of CF is proved < 2^32, and sm3 = sm3_a (SM3Arith.v: arithmetic only, bitwise xor/and/or kept as the standard's bit operations)",
+    "translator harness/cmd/gen targets sm3iv (the eight IV words of Reset -> coq/Gen/SM3IV.v) and sm3consts (rotation amounts, T constants, loop bounds, array sizes, index offsets, block/digest size, pad constants, update==update2 flag -> coq/Gen/SM3Consts.v; theorems C04_constants_from_source, C04_model_uses_source_constants)",
     "extraction: ExtrOcamlBasic only (Extract Inductive bool, option, unit, list, prod, sumbool, sumor; Extract Inlined Constant andb, orb); nat/positive/N stay inductive",
     "OCaml 4.13.1 + dune; runner ocaml/sm3/main.ml and ocaml/conv.ml.tmpl (hex and int conversions, the shared LCG byte stream)",
     "Go drivers harness/cmd/c04 (public API only) and harness/cmd/c04w (hooks sm3.VerifSetState / VerifGetState, /repo/sm3/verif_state_verif.go)",
@@ -41,7 +43,8 @@ TRUSTED_BASE = [
 ASSUMPTIONS = [
     "messages shorter than 2^61 bytes for 'is the GM/T 0004 digest' (the standard is undefined beyond 2^64 bits); the Coq equalities themselves hold for every list because model and sm3 both write the low 64 bits of the bit length",
     "Go int is 64 bits (len(p)*8 does not overflow for slices that fit in memory)",
-    "value semantics for slices: the hash object never shares its tail buffer with a caller's slice (true of the code read: append onto a buffer the object owns); not proved, exercised by the driver scribbling over every written buffer",
+    "Go's append and slice expressions behave as SM3Heap.append / reslice_from (in place when len+n <= cap, otherwise a new array of any capacity >= len+n; values read before written); on that heap model non-aliasing is a theorem, not an assumption",
+    "the caller does not store into the array the object currently holds (it cannot obtain it: the object never returns or keeps a caller-visible array - theorems (e))",
     "one goroutine per hash object (hash.Hash is not safe for concurrent use)",
     "crypto/hmac takes its non-marshalable path (sm3.SM3 has no MarshalBinary), crypto/internal/boring disabled",
 ]
@@ -53,7 +56,7 @@ RULE = ("seeded generator (VERIF_SEED): op histories over Write/Sum/Reset of len
         "partitions of messages into 1..8 writes with cuts biased to block boundaries and empty writes; streams 64 KiB..256 KiB (quick) / "
         "up to 64 MiB (thorough, model up to 4 MiB) in chunk sizes 1, 7, 1021, 4099, 65521; HMAC key x message length grid plus random; "
         "PBKDF2 password lengths {0,1,63,64,65,200} x iterations {1,2,1000} x dkLen {1,31,32,33,100} (1000 iterations: two cases in quick); "
-        "white box: bit counter set to 0, 2^32-8, 2^32, 2^56, 2^61-64, 2^61, 2^63, 2^64-8.. then writes of {0,1,2,8,55,56,63,64,65,128}. "
+        "white box: histories written from ONE reused caller buffer with the overlap of the object's tail buffer and that buffer observed after every Write (must be 0), Sum results overwritten by the caller; bit counter set to 0, 2^32-8, 2^32, 2^56, 2^61-64, 2^61, 2^63, 2^64-8.. then writes of {0,1,2,8,55,56,63,64,65,128}. "
         "A case is non-trivial when it hashes at least one byte or observes at least one Sum; distinct = distinct case text")
 
 M32 = 0xFFFFFFFF
@@ -225,7 +228,7 @@ def nontrivial(f):
     op = f[0]
     if op == "I":
         return False
-    if op in ("H", "N"):
+    if op in ("H", "N", "A"):
         return any(o[0] == "S" or (o[0] == "W" and o[1] != ".") for o in _ops(f[-1]))
     if op == "L":
         return int(f[3]) > 0
@@ -235,7 +238,7 @@ def nontrivial(f):
 def classify(f, io):
     op = f[0]
     out = io[0] if io else "none"
-    if op in ("H", "N"):
+    if op in ("H", "N", "A"):
         n = len(f[-1].split(","))
         return "%s:len%s:%s" % (op, "1-4" if n <= 4 else "5-8" if n <= 8 else "9-24", out)
     if op == "T":
@@ -250,7 +253,7 @@ def same(f, io, mo):
     return io == mo
 
 
-def _check_history(obj, digest_of, ops, io):
+def _check_history(obj, digest_of, ops, io, wsuffix=""):
     if io[0] != "ok" or len(io) != 2:
         return False, "history did not complete: " + " ".join(io)[:80]
     outs = io[1].split(",")
@@ -260,7 +263,9 @@ def _check_history(obj, digest_of, ops, io):
         if o[0] == "W":
             p = _unhex(o[1])
             obj.write(p)
-            if got != "w%d" % len(p):
+            if wsuffix and got == "w%d/1" % len(p):
+                return False, "op %d: after Write the object's buffer overlaps the caller's slice (io.Writer: must not retain p)" % k
+            if got != ("w%d" % len(p)) + wsuffix:
                 return False, "op %d: Write returned %s for %d bytes" % (k, got, len(p))
         elif o[0] == "S":
             pre = _unhex(o[2])
@@ -303,6 +308,8 @@ def predicate(f, io):
         return (io == ["ok", "32", "64"]), "Size/BlockSize are not 32/64"
     if op == "H":
         return _check_history(_SM3Obj(), lambda o: o.h.digest(), _ops(f[2]), io)
+    if op == "A":
+        return _check_history(_SM3Obj(), lambda o: o.h.digest(), _ops(f[2]), io, "/0")
     if op == "N":
         return _check_history(PyHMAC(_unhex(f[2])), lambda o: o.digest(), _ops(f[3]), io)
     if io[0] != "ok":
